@@ -137,6 +137,196 @@ def _ints(xs):
     return ",".join(str(int(x)) for x in xs) if len(xs) else "_"
 
 
+# ---- bonds.pyx read function by function (pass 7): signatures with C types and defaults, canonical bodies ------------
+# Docstrings, comments, blank lines, layout and the arguments of `raise X(...)` are dropped; parameters and declared /
+# assigned locals are renamed a0, a1 … / v0, v1 … in order of first appearance, so a renamed local regenerates the same
+# text while a changed guard, operator, constant, dtype, default, helper call, order of steps or exception class does not.
+
+_PYX_KEEP = set("""self True False None and or not in is if elif else for while return raise pass break continue def cdef cpdef class
+import from as try except finally with lambda yield del global assert range len max min int str isinstance set list tuple
+np nx numbers BondType BondList Sequence itertools free realloc sizeof
+IndexError ValueError TypeError NotImplementedError MemoryError OverflowError KeyError BadStructureError
+uint8 uint16 uint32 uint64 int8 int16 int32 int64 ptr bint object float double void IndexType""".split())
+
+def _pyx_strip_code(text):
+    """remove docstrings, comments, blank lines; join bracketed continuation lines; normalise whitespace"""
+    text = re.sub(r'(?s)[rRuU]?""".*?"""', '""', text)
+    lines = []
+    for raw in text.split("\n"):
+        # comment removal (quotes in this file never contain '#', except f-strings without '#')
+        q = None; out = []
+        for ch in raw:
+            if q:
+                out.append(ch)
+                if ch == q: q = None
+            elif ch in "\"'":
+                q = ch; out.append(ch)
+            elif ch == "#":
+                break
+            else:
+                out.append(ch)
+        lines.append("".join(out).rstrip())
+    logical = []; cur = ""; depth = 0; indent = 0; cont = False
+    for ln in lines:
+        if not ln.strip() and depth == 0 and not cont:
+            continue
+        if depth == 0 and not cont:
+            indent = len(ln) - len(ln.lstrip()); cur = ln.strip()
+        else:
+            cur += " " + ln.strip()
+        depth += sum(ln.count(c) for c in "([{") - sum(ln.count(c) for c in ")]}")
+        cont = cur.endswith("\\")
+        if cont:
+            cur = cur[:-1].rstrip(); continue
+        if depth <= 0:
+            depth = 0
+            cur = re.sub(r"\s+", " ", cur)
+            cur = re.sub(r"\(\s+", "(", cur); cur = re.sub(r"\s+\)", ")", cur); cur = re.sub(r"\[\s+", "[", cur); cur = re.sub(r"\s+\]", "]", cur)
+            cur = re.sub(r",\)", ")", cur)
+            if cur not in ('""',):
+                logical.append((indent, cur))
+            cur = ""
+    return logical
+
+def _pyx_functions(src):
+    """{qualified name: (signature line, [(indent, logical line)])} for every def/cdef function of the file"""
+    ll = _pyx_strip_code(src)
+    out = {}; i = 0; cls = None
+    while i < len(ll):
+        ind, ln = ll[i]
+        m = re.match(r"class (\w+)", ln)
+        if m and ind == 0:
+            cls = m.group(1)
+        elif ind == 0 and not ln.startswith("@") and not re.match(r"(def|cdef|cpdef|class) ", ln):
+            pass
+        m = re.match(r"(?:def|cdef|cpdef)\s+(?:inline\s+)?(?:[\w\[\]\*\.]+\s+)*?(\w+)\s*\((.*)\)\s*(except\s*[-\w\?]+)?\s*:$", ln)
+        if m and (ind == 0 or ind == 4):
+            name = m.group(1); body = []; j = i + 1
+            while j < len(ll) and ll[j][0] > ind:
+                body.append(ll[j]); j += 1
+            q = (cls + "." if ind == 4 and cls else "") + name
+            if ind == 0: cls = None if not ln.startswith("class") else cls
+            out[q] = (ln, body)
+            i = j; continue
+        i += 1
+    return out
+
+def _pyx_params(sig):
+    m = re.match(r"(?:def|cdef|cpdef)\s+(?:inline\s+)?((?:[\w\[\]\*\.]+\s+)*?)(\w+)\s*\((.*)\)\s*(except\s*[-\w\?]+)?\s*:$", sig)
+    ret, name, args, exc = m.group(1).strip(), m.group(2), m.group(3), (m.group(4) or "")
+    ps = []
+    depth = 0; cur = ""
+    for ch in args + ",":
+        if ch == "," and depth == 0:
+            if cur.strip(): ps.append(cur.strip())
+            cur = ""
+        else:
+            depth += ch in "([{"; depth -= ch in ")]}"; cur += ch
+    res = []
+    for p in ps:
+        default = ""
+        if "=" in p:
+            p, default = [x.strip() for x in p.split("=", 1)]
+        parts = p.split()
+        res.append((parts[-1].lstrip("*"), " ".join(parts[:-1]), default))
+    return ret, exc.replace(" ", ""), res
+
+def _pyx_canon(sig, body):
+    """rename parameters (a0, a1 …) and declared / assigned locals (v0, v1 …) in order of first appearance"""
+    _, _, ps = _pyx_params(sig)
+    names = {}
+    for k, (n, _, _) in enumerate(p for p in ps if p[0] != "self"):
+        names[n] = f"a{k}"
+    decl = []
+    for _, ln in body:
+        m = re.match(r"cdef\s+(.*)$", ln)
+        if m:
+            rest = m.group(1)
+            for piece in re.split(r",(?![^\[]*\])", rest):
+                piece = piece.split("=")[0].strip()
+                ident = re.findall(r"[A-Za-z_]\w*", piece)
+                if ident: decl.append(ident[-1])
+        m = re.match(r"([A-Za-z_]\w*)\s*(?:=|\+=|-=)(?!=)", ln)
+        if m: decl.append(m.group(1))
+        m = re.match(r"for\s+([\w, ]+)\s+in\b", ln)
+        if m: decl += re.findall(r"[A-Za-z_]\w*", m.group(1))
+        for mm in re.finditer(r"\bfor\s+([A-Za-z_]\w*)\s+in\b", ln): decl.append(mm.group(1))
+    k = 0
+    for d in decl:
+        if d not in names and d not in _PYX_KEEP:
+            names[d] = f"v{k}"; k += 1
+    def ren(ln):
+        def f(m):
+            if m.start() > 0 and ln[m.start() - 1] == ".": return m.group(0)
+            return names.get(m.group(0), m.group(0))
+        # leave string literals alone
+        parts = re.split(r"(f?\"[^\"]*\"|f?'[^']*')", ln)
+        return "".join(p if i % 2 else re.sub(r"[A-Za-z_]\w*", lambda m, p=p: (m.group(0) if (m.start() > 0 and p[m.start()-1] == ".") else names.get(m.group(0), m.group(0))), p) for i, p in enumerate(parts))
+    return [(ind, ren(ln)) for ind, ln in body], names
+
+_PYX_STEP = re.compile(r"raise (\w+)|\b(_to_positive_index_array|_to_positive_index|_to_index_array|_invert_index|_sort|_in_array|_remove_redundant_bonds|_get_max_bonds_per_atom|np\.sort|np\.append|np\.delete|np\.concatenate|np\.cumsum|np\.frombuffer|np\.nonzero|np\.arange|np\.full|np\.zeros|np\.ones|np\.max|get_bonds|as_array|as_set|copy|BondList|max|min)\(")
+
+def _pyx_facts(src, wanted):
+    fs = _pyx_functions(src)
+    res = {}
+    for q in wanted:
+        if q not in fs: raise ValueError(f"function {q} not found in bonds.pyx")
+        sig, body = fs[q]
+        ret, exc, ps = _pyx_params(sig)
+        cbody, names = _pyx_canon(sig, body)
+        conds = [ln for _, ln in cbody if re.match(r"(if|elif|while) ", ln)]
+        steps = []
+        for _, ln in cbody:
+            for m in _PYX_STEP.finditer(ln):
+                if m.group(1): steps.append("raise " + m.group(1))
+                else:
+                    recv = re.search(r"([\w\.]+)\.$", ln[:m.start(2)])
+                    steps.append((recv.group(1) + "." if recv and m.group(2) in ("as_array", "as_set", "copy", "get_bonds", "_remove_redundant_bonds", "_get_max_bonds_per_atom") else "") + m.group(2))
+        dts = re.findall(r"dtype=([\w\.]+)", " ".join(ln for _, ln in cbody))
+        fills = re.findall(r"np\.full\((?:\([^)]*\)|[^,]+), ([^,]+),", " ".join(ln for _, ln in cbody))
+        res[q] = {"ret": ret, "exc": exc, "params": [(names.get(n, n), t, d) for n, t, d in ps], "conds": conds, "steps": steps,
+                  "dtypes": dts, "fills": fills, "body": [("  " * ((ind - body[0][0]) // 4) if body else "") + ln for ind, ln in cbody]}
+    return res
+
+
+
+MODELLED_FUNCTIONS = [
+    "BondType.without_aromaticity", "BondList.__init__", "BondList.concatenate", "BondList.__copy_create__",
+    "BondList.__copy_fill__", "BondList.offset_indices", "BondList.as_array", "BondList.as_set", "BondList.as_graph",
+    "BondList.remove_aromaticity", "BondList.remove_bond_order", "BondList.get_atom_count", "BondList.get_bond_count",
+    "BondList.get_bonds", "BondList.get_all_bonds", "BondList.adjacency_matrix", "BondList.bond_type_matrix",
+    "BondList.add_bond", "BondList.remove_bond", "BondList.remove_bonds_to", "BondList.remove_bonds", "BondList.merge",
+    "BondList.__add__", "BondList.__getitem__", "BondList.__iter__", "BondList.__str__", "BondList.__eq__",
+    "BondList.__contains__", "BondList._get_max_bonds_per_atom", "BondList._remove_redundant_bonds",
+    "_to_positive_index", "_to_positive_index_array", "_to_index_array", "_in_array", "_sort", "_invert_index"]
+
+
+def _lean_ident(q):
+    return q.replace("BondList.", "").replace("BondType.", "BondType_").replace("__", "dunder_").strip("_")
+
+
+def _lean_str(x):
+    return '"' + x.replace("\\", "\\\\").replace('"', '\\"') + '"'
+
+
+def _pyx_gen_lines(src, namespace):
+    """Lean definitions `sig_<fn>` / `body_<fn>` for every modelled function."""
+    fs = _pyx_facts(src, MODELLED_FUNCTIONS)
+    out = []
+    for q in MODELLED_FUNCTIONS:
+        f = fs[q]
+        body = [re.sub(r"^(\s*raise \w+)\(.*\)$", r"\1", ln) for ln in f["body"]]
+        ident = _lean_ident(q)
+        ps = ", ".join(f"({_lean_str(n)}, {_lean_str(t)}, {_lean_str(d)})" for n, t, d in f["params"])
+        out.append(f"/-- `{q}`: (return C type, exception clause, [(parameter, C type, default)]) -/")
+        out.append(f"def sig_{ident} : String × String × List (String × String × String) := ({_lean_str(f['ret'])}, {_lean_str(f['exc'])}, [{ps}])")
+        out.append(f"def body_{ident} : List String := [" + ", ".join(_lean_str(b) for b in body) + "]")
+        raises = [b.strip().split()[1] for b in body if b.strip().startswith("raise ")]
+        out.append(f"/-- exception classes `{q}` raises itself, in source order -/")
+        out.append(f"def raises_{ident} : List String := [" + ", ".join(_lean_str(r) for r in raises) + "]")
+    return out
+
+
 # ---------------------------------------------------------------- translator (Gen)
 def gen_lean():
     from common import paths
@@ -187,7 +377,8 @@ def gen_lean():
            f"def typeGuards : Nat := {guards}",
            "/-- control skeleton of `_to_positive_index` as written (conditions, assignment, returns). -/",
            "def toPositiveIndexSkeleton : List String := " + lst('"' + c.replace('"', "'") + '"' for c in conds),
-           "end BiotiteModel.Gen.C02", ""]
+           "/-! every modelled function of bonds.pyx: signature and canonical body (see harness/props/c02.py `_pyx_*`) -/"] \
+        + _pyx_gen_lines(src, "Gen") + ["end BiotiteModel.Gen.C02", ""]
     return {"BiotiteModel/Gen/C02.lean": "\n".join(out)}
 
 
